@@ -1,4 +1,5 @@
-CONSTANTS MaxPos = 4
+CONSTANTS CursorOnDropped = FALSE
+          MaxPos = 4
           MaxN = 4
 INIT Init
 NEXT Next
